@@ -33,7 +33,31 @@ def body_factory(tier, seed):
         # the outbound half (call()): histories on a real endpoint under the virtual clock
         from harness import gen_history as GH
         hs = GH.HGen(tier, seed).all()[: (30 if tier == "quick" else 300)]
-        GH.run_histories(rep, hs, PROP + "h", PROP, O.c16_outbound, "VH04")
+        GH.run_histories(rep, hs, PROP + "h", PROP, O.c16_outbound, "VH16")
+        # two endpoint classes in one process, same handler names, opposite flags, BOTH defined before either is
+        # used: each keeps its own behaviour (skipping is scoped to the class that declared it)
+        from harness import impl_dispatch as D
+        import json as _json
+        for version in ("1.6", "2.0.1"):
+            for first_skips in (True, False):
+                def mk(skip):
+                    return [{"action": "Reset", "skip": skip,
+                             "on": {"name": "on_reset", "sig": GD.KW, "async": False, "out": ("ret", {"status": "NotAStatus"})}}]
+                ra, rb = mk(first_skips), mk(not first_skips)
+                ca, cb = D.make_cp_class(version, ra), D.make_cp_class(version, rb)
+                for (cls_, routes_, skips) in ((ca, ra, first_skips), (cb, rb, not first_skips), (ca, ra, first_skips)):
+                    raw = '[2,"tc","Reset",{"type":"NotAType","extra":1}]'
+                    obs = D.observe_frame(version, routes_, raw, cls=cls_)
+                    rep.count(_json.dumps([version, first_skips, skips]))
+                    hs = [e for e in obs if e[0] == "handler"]
+                    w = O.sends(obs)
+                    ok = (len(hs) == 1 and len(w) == 1 and w[0][0] == 3) if skips else (not hs and len(w) == 1 and w[0][0] == 4)
+                    if not ok:
+                        rep.violation("C16:two-classes:%s:%s" % (version, "skipping" if skips else "validating"),
+                                      "with two endpoint classes declaring the same handler name with opposite flags, the %s class "
+                                      "%s an invalid Reset" % ("skipping" if skips else "validating", "rejected" if skips else "accepted"),
+                                      {"kind": "two-classes", "version": version, "first_class_skips": first_skips, "this_class_skips": skips,
+                                       "frame": raw, "observation": obs})
         for c in (cases[25], cases[len(cases) // 2], cases[-1]):
             rep.sample({"stratum": c[0], "version": c[1], "frame": str(c[3])[:200]})
     return body
